@@ -935,6 +935,10 @@ class Interp:
             r = isinstance(a, Builtin) and isinstance(b, Builtin) and \
                 a.name == b.name
             return r if isinstance(op, ast.Is) else not r
+        if isinstance(op, (ast.Is, ast.IsNot)) and isinstance(
+                a, ClassRef) and isinstance(b, ClassRef):
+            r = a.cls is b.cls
+            return r if isinstance(op, ast.Is) else not r
         if isinstance(op, (ast.Is, ast.IsNot)):
             r = (a is b) or (a is None and b is None)
             if (isinstance(a, Opaque) and a.tag != "type") or \
